@@ -236,8 +236,10 @@ func (m *OddPrimeSquareFactors) ModMul(out, a, b *numct.Nat) {
 
 // ModDiv computes out = (a / b) mod n^2.
 func (m *OddPrimeSquareFactors) ModDiv(out, a, b *numct.Nat) ct.Bool {
-	ok := m.ModInv(out, b)
-	m.ModMul(out, a, out)
+	// The inverse goes into a temporary: out may alias a.
+	var bInv numct.Nat
+	ok := m.ModInv(&bInv, b)
+	m.ModMul(out, a, &bInv)
 	return ok
 }
 
